@@ -835,6 +835,9 @@ pub fn run(rep: &mut Report) {
         fams.push(("cat stars in hosts".into(), cat_family(true), true));
         fams.push(("6/7-T families".into(), many_t_family(), true));
         fams.push(("gadget groups".into(), gadget_group_family(), true));
+        for (gn, sn) in [(3usize, 2usize), (4, 1)] {
+            fams.push((format!("closed gadget webs W({},{})", gn, sn), (0..crate::checks::c04::gadget_web_count(gn, sn)).map(|i| crate::checks::c04::gadget_web_at_opt(gn, sn, i, true)).collect(), false));
+        }
     } else {
         let mut v = vec![];
         for n in 1..=4 {
@@ -846,6 +849,9 @@ pub fn run(rep: &mut Report) {
         fams.push(("cat stars in hosts".into(), cat_family(false), true));
         fams.push(("6/7-T families".into(), many_t_family(), true));
         fams.push(("gadget groups".into(), gadget_group_family(), true));
+        for (gn, sn) in [(3usize, 2usize), (4, 2), (5, 1)] {
+            fams.push((format!("closed gadget webs W({},{})", gn, sn), (0..crate::checks::c04::gadget_web_count(gn, sn)).map(|i| crate::checks::c04::gadget_web_at_opt(gn, sn, i, true)).collect(), false));
+        }
     }
     for (name, fam, with_par) in &fams {
         let t0 = Instant::now();
